@@ -100,6 +100,12 @@ type scenario struct {
 	callers        [2][]callerSpec
 	gap            time.Duration // between rounds
 	closeBetween   bool
+	closes         [2][]closeSpec // connections to a peer killed while a round is running
+}
+
+type closeSpec struct {
+	peer int
+	at   time.Duration
 }
 
 var relayID = keys.Ed(99).ID
@@ -216,6 +222,17 @@ func drawScenario(rt *rapid.T) *scenario {
 					cs.peerTimeout = time.Duration(rapid.SampledFrom([]int{100, 3000, 10000}).Draw(rt, "pt")) * time.Millisecond
 				}
 				sc.callers[r] = append(sc.callers[r], cs)
+			}
+		}
+	}
+	for r := 0; r < 2; r++ {
+		if rapid.IntRange(0, 2).Draw(rt, "closes?") == 0 {
+			n := rapid.IntRange(1, 2).Draw(rt, "ncloses")
+			for i := 0; i < n; i++ {
+				sc.closes[r] = append(sc.closes[r], closeSpec{
+					peer: rapid.IntRange(0, np-1).Draw(rt, "closePeer"),
+					at:   time.Duration(rapid.SampledFrom([]int{7, 25, 60, 150, 320, 700, 1200, 2500, 6500}).Draw(rt, "closeAt"))*time.Millisecond + 1250*time.Microsecond,
+				})
 			}
 		}
 	}
@@ -369,6 +386,15 @@ func runScenario(t *testing.T, rt *rapid.T, name string, sc *scenario) {
 					}
 					cr.returned = true
 				}()
+			}
+			for _, cl := range sc.closes[round] {
+				wg.Add(1)
+				go func() {
+					defer wg.Done()
+					time.Sleep(cl.at)
+					sw.ClosePeer(peerID(cl.peer))
+				}()
+				labels["conn-killed-during-round"] = true
 			}
 			// O1: everything has returned by the horizon
 			time.Sleep(horizon)
@@ -761,6 +787,26 @@ func checkRound(rt *rapid.T, sc *scenario, round int, results []*callResult, w *
 						fail("caller %d: candidate %s reported as in back-off but no earlier failed dial of it exists", ci, as)
 					}
 					labels["backoff-skip"] = true
+					continue
+				}
+				// the connection obtained from this address died afterwards (killed by the schedule):
+				// the address counts as failed -- it is not dialled a second time
+				if errors.Is(causes[as], swarm.ErrConnClosed) {
+					excused := false
+					for _, d := range pd {
+						if d.Addr.String() != as || !d.Done || d.Err != nil || d.End.After(cr.end) {
+							continue
+						}
+						for _, cl := range sc.closes[round] {
+							if k := t0.Add(cl.at); cl.peer == pi && !k.Before(d.End) && !k.After(cr.end) {
+								excused = true
+							}
+						}
+					}
+					if !excused {
+						fail("caller %d: candidate %s reported as 'connection closed' but no connection obtained from it was killed before the caller returned", ci, as)
+					}
+					labels["conn-died-address-counts-as-failed"] = true
 					continue
 				}
 				attempted := false
